@@ -5,6 +5,7 @@ cfg[3] = 1 marks a generated/hand-written *publication* case: thread 0 is the on
 triggers to the published line and the only writer of datum 0, it does not write after its first trigger
 destruction, and the other threads touch datum 0 only through op 12 (read if the detector reports tripped).
 The model ignores cfg[3]; the `publication` monitor uses it.
+cfg[4] = 1 asks the driver for a process in which no static line has been used yet (first-use cases, see the driver).
 """
 from events import K
 import rng as R
@@ -108,10 +109,10 @@ def _random_prog(rng, nexp, ndata, n):
     return prog
 
 
-def _publication(rng, nt, nexp):
+def _publication(rng, nt, nexp, X=None):
     """thread 0 publishes datum 0 through line X; the others poll X and read when tripped"""
     specs = _line_specs(nexp)
-    X = rng.pick(specs)
+    X = X or rng.pick(specs)
     others = [s for s in specs if s != X]
     val = 0
     p = [_mk('T', 0, X)]
@@ -189,6 +190,13 @@ def _outlives(rng, nt, nexp):
 def gen(rng, tier, spec):
     nexp = rng.range(0, 3)
     mode = rng.below(10)
+    if mode == 5 and rng.chance(4, 5):
+        # first use of an indexed line: the trigger thread and the detector thread(s) construct their objects on an
+        # index that nobody has touched in this process, in any interleaving (fresh process: cfg[4] = 1)
+        nt = rng.weighted([(5, 2), (4, 3)])
+        progs = _publication(rng, nt, nexp, ('I', rng.below(COUNT)))
+        head = R.sched_random(rng, nt, rng.range(2, 10), CW)
+        return {'cfg': [COUNT, nexp, 1, 1, 1], 'progs': progs, 'sched': head + R.any_sched(rng, nt, 40, CW)}
     if mode == 4:
         nexp = max(nexp, 1)
         nt = rng.weighted([(3, 1), (5, 2), (3, 3)])
@@ -377,7 +385,7 @@ def mon_publication(case, lines):
     if len(case['cfg']) < 4 or case['cfg'][3] != 1:
         return None
     for i, (t, k, o, v, m) in _events(lines):
-        if k == K['FAULT']:
+        if k == K['FAULT'] and v != 6:
             return 'overlapping access windows (fault code %d) on the published datum at trace line %d' % (v, i)
     last = None
     for o in case['progs'][0]:
@@ -442,6 +450,70 @@ def mon_no_acquire_load(case, lines):
     return None
 
 
+def mon_slot_assigned(case, lines):
+    """line handles shared between threads (the static declared line, the slots of the indexed-line table, the harness's
+    explicit lines) are read-only while client threads run: a client thread assigns only to shared_ptr instances it
+    constructed itself (harness/tripwire_extra.hpp logs K_FAULT <instance> 6 otherwise, before the assignment)"""
+    for i, (t, k, o, v, m) in _events(lines):
+        if k == K['FAULT'] and v == 6:
+            return ('thread %d assigned to a shared line handle (obj%d) that it does not own at trace line %d: unsynchronised write to '
+                    'a slot other threads read or assign (data race; two threads can each install and keep their own flag)' % (t, o, i))
+    return None
+
+
+def _line_key(o):
+    """abstract line named by a Make operation"""
+    k = o[0]
+    if k in (MK_E, DET_E, SDET_E):
+        return ('E', o[2])
+    if k in (MK_D, DET_D, SDET_D):
+        return ('D',)
+    return ('I', o[2])
+
+
+def mon_trip_visible(case, lines):
+    """every detector on a line, in every thread, reports true once a trigger attached to THAT line (same explicit line
+    number / declared / same index) has been destroyed: follow, from the operations that succeeded, which line each
+    trigger and detector object is attached to; an isTripped that starts after such a destruction returned must give
+    true (the harness executes sequentially consistent interleavings)"""
+    ptr, cur, trig, det, sdet, tripped, snap = {}, {}, {}, {}, {}, {}, {}
+    for i, (t, k, ob, v, m) in _events(lines):
+        prog = case['progs'][t] if t < len(case['progs']) else []
+        if k == K['INVOKE']:
+            j = ptr.get(t, 0)
+            ptr[t] = j + 1
+            cur[t] = prog[j] if j < len(prog) and prog[j][0] == v else None
+            snap[t] = dict(tripped)
+            continue
+        if k not in (K['RET'], K['CATCH']) or cur.get(t) is None:
+            continue
+        o, cur[t] = cur[t], None
+        ok = k == K['RET'] and v == 0
+        T, D = trig.setdefault(t, {}), det.setdefault(t, {})
+        c = o[0]
+        if c in (MK_E, MK_D, MK_I) and ok:
+            T[o[1]] = _line_key(o)
+        elif c in (DET_E, DET_D, DET_I) and ok:
+            D[o[1]] = _line_key(o)
+        elif c in (SDET_E, SDET_D, SDET_I) and ok:
+            sdet[o[1]] = _line_key(o)
+        elif c in (MOVE_C, MOVE_A) and ok:
+            T[o[2]] = T.get(o[1])
+            T[o[1]] = None
+        elif c == DESTROY and ok and o[1] in T:
+            key = T.pop(o[1])
+            if key is not None:
+                tripped.setdefault(key, i)
+        elif (c in (IS_TRIPPED, S_IS_TRIPPED) and k == K['RET'] and v == 0) or \
+                (c in (POLL_READ, S_POLL_READ) and k == K['RET'] and v == -1 and len(case['cfg']) > 2 and 0 <= o[2] < case['cfg'][2]):
+            key = (D if c in (IS_TRIPPED, POLL_READ) else sdet).get(o[1])
+            if key is not None and key in snap.get(t, {}):
+                return ('thread %d: isTripped / read-if-tripped on a detector of line %s reported false at trace line %d although a trigger attached to '
+                        'that line had been destroyed (destruction returned at trace line %d): the detector does not watch the '
+                        'flag its line\'s trigger trips' % (t, key, i, snap[t][key]))
+    return None
+
+
 def mon_crash(case, lines):
     for l in lines:
         if len(l) >= 2 and l[0] == -1 and l[1] == 3:
@@ -454,5 +526,6 @@ def mon_crash(case, lines):
 MONITORS = {
     'true_before_trip': mon_true_before_trip, 'untripped': mon_untripped, 'lines_independent': mon_lines_independent,
     'index_range': mon_index_range, 'moved_from': mon_moved_from, 'publication': mon_publication,
-    'mo_weakened': mon_mo_weakened, 'no_acquire_load': mon_no_acquire_load, 'crash': mon_crash,
+    'mo_weakened': mon_mo_weakened, 'no_acquire_load': mon_no_acquire_load,
+    'slot_assigned': mon_slot_assigned, 'trip_visible': mon_trip_visible, 'crash': mon_crash,
 }
